@@ -33,7 +33,8 @@ MANIFEST = dict(
          '`Message Any` of block.tlb (decoded by an independent schema reading), that the package\'s parser returns the same header fields, state-init and body from it, and that the parser accepts both Either '
          'placements (typestate). The stand-alone wrappers (state-init, tick-tock, currencies, hash update, account status, wallet and NFT data) are checked the same way.'
          ' The parsed message serialises again to the cell it was parsed from, and its state-init to the StateInit cell that was sent.'
-         ' The NFT wrappers keep anycast addresses as given (also when the other address is given as text); HighloadWalletData round-trips its old queries.',
+         ' The NFT wrappers keep anycast addresses as given (also when the other address is given as text); HighloadWalletData round-trips its old queries.'
+         ' Extra-currency ids cover the whole unsigned 32-bit range (bit 31 set). A header edited after construction (value, grams, extras, fees, bounce, destination) serialises what the object holds now.',
     note='trusted: interpreter, bitarray model, TL-B lowering/decoder, bundled block.tlb (docstring schemas for wallet/NFT types). Addresses with anycast make headers longer than any encoding allows and are outside the enumerated space.',
     design_ref='DESIGN.md section 4 C15')
 
